@@ -22,6 +22,8 @@ pub enum TransformError {
   AlreadyDefined(String),
   #[error("source `{0}` should be $-prefixed.")]
   MalformedVar(String),
+  #[error("`replace` has an invalid regex `{0}`.")]
+  InvalidRegex(String, #[source] regex::Error),
 }
 
 pub struct Transform {
